@@ -86,10 +86,31 @@ func (e *Engine) rebind(fc *FuncContract, res *FuncResult, accept func(*FuncResu
 			}
 		}
 	}
-	mentioned := contractIdents(fc)
+	// a local is "taken" when the invariants already use its name as a variable (a name followed by "(" is a spec function)
+	taken := map[string]bool{}
+	for _, l := range fc.Loops {
+		cls := append([]*Clause{}, l.Invariants...)
+		if l.Decreases != nil {
+			cls = append(cls, l.Decreases)
+		}
+		for _, c := range cls {
+			for _, loc := range identTok.FindAllStringIndex(c.Src, -1) {
+				if loc[1] < len(c.Src) && c.Src[loc[1]] == '(' {
+					continue
+				}
+				if loc[0] > 0 && c.Src[loc[0]-1] == '.' {
+					continue // a field or package member
+				}
+				taken[c.Src[loc[0]:loc[1]]] = true
+			}
+		}
+	}
+	for _, p := range fn.Params {
+		taken[p.Name()] = true // parameters are bound by position (`params`), never by this search
+	}
 	var free []string
 	for _, n := range localNames(fn) {
-		if !mentioned[n] {
+		if !taken[n] {
 			free = append(free, n)
 		}
 	}
@@ -105,7 +126,123 @@ func (e *Engine) rebind(fc *FuncContract, res *FuncResult, accept func(*FuncResu
 			}
 		}
 	}
+	finish := func(r2 *FuncResult, a2 map[string]string) *FuncResult {
+		var ks []string
+		for k := range a2 {
+			ks = append(ks, k)
+		}
+		sort.Strings(ks)
+		for _, k := range ks {
+			r2.Notes = append(r2.Notes, fmt.Sprintf("%s: the loop invariants name a local `%s` that the function no longer has; they were re-bound to `%s` (proof hints only; requires/ensures are unaffected) and every obligation was discharged under that binding", fc.Key, k, a2[k]))
+		}
+		return r2
+	}
+	debug := func(a2 map[string]string, r2 *FuncResult) {
+		if os.Getenv("FVC_DEBUG_REBIND") != "" {
+			fmt.Fprintf(os.Stderr, "rebind %s: %v -> status=%s unknown=%q err=%s\n", fc.Key, a2, r2.Status, r2.UnknownIdent, truncate(r2.Error, 300))
+		}
+	}
 	budget := 24
+	// 1. with pinned `locals`: every missing name is known at once, together with its type. A rename keeps the order of
+	// declaration, so the k-th missing local of a type is first tried as the k-th unused local of that type; other
+	// pairings within a type follow.
+	if len(fc.LocalsOrder) > 0 {
+		have := map[string]bool{}
+		for _, n := range localNames(fn) {
+			have[n] = true
+		}
+		var missing []string
+		for _, n := range fc.LocalsOrder {
+			if !have[n] && inLoops[n] {
+				missing = append(missing, n)
+			}
+		}
+		complete := len(missing) > 0
+		byType := map[string][]string{} // type -> unused locals, in declaration order
+		for _, n := range free {
+			byType[typeOf[n]] = append(byType[typeOf[n]], n)
+		}
+		groups := map[string][]string{} // type -> missing names, in pinned order
+		var typesInOrder []string
+		for _, m := range missing {
+			T := fc.Locals[m]
+			if len(groups[T]) == 0 {
+				typesInOrder = append(typesInOrder, T)
+			}
+			groups[T] = append(groups[T], m)
+		}
+		for _, T := range typesInOrder {
+			if len(byType[T]) < len(groups[T]) {
+				complete = false // a local was removed, not renamed
+			}
+		}
+		if os.Getenv("FVC_DEBUG_REBIND") != "" {
+			fmt.Fprintf(os.Stderr, "rebind %s: missing=%v free=%v byType=%v complete=%v\n", fc.Key, missing, free, byType, complete)
+		}
+		if complete {
+			// enumerate injective assignments group by group, order-preserving one first
+			var assigns []map[string]string
+			var rec func(gi int, cur map[string]string)
+			var perm func(ms []string, cands []string, used []bool, k int, cur map[string]string, next func(map[string]string))
+			perm = func(ms []string, cands []string, used []bool, k int, cur map[string]string, next func(map[string]string)) {
+				if len(assigns) >= budget {
+					return
+				}
+				if k == len(ms) {
+					next(cur)
+					return
+				}
+				// candidate order: position k first (order-preserving), then the others
+				order := []int{}
+				if k < len(cands) {
+					order = append(order, k)
+				}
+				for c := range cands {
+					if c != k {
+						order = append(order, c)
+					}
+				}
+				for _, c := range order {
+					if used[c] {
+						continue
+					}
+					used[c] = true
+					cur[ms[k]] = cands[c]
+					perm(ms, cands, used, k+1, cur, next)
+					delete(cur, ms[k])
+					used[c] = false
+				}
+			}
+			rec = func(gi int, cur map[string]string) {
+				if gi == len(typesInOrder) {
+					cp := map[string]string{}
+					for k, v := range cur {
+						cp[k] = v
+					}
+					assigns = append(assigns, cp)
+					return
+				}
+				T := typesInOrder[gi]
+				perm(groups[T], byType[T], make([]bool, len(byType[T])), 0, cur, func(c map[string]string) { rec(gi+1, c) })
+			}
+			rec(0, map[string]string{})
+			for _, a2 := range assigns {
+				if budget <= 0 {
+					break
+				}
+				budget--
+				r2 := e.verifyFuncAlias(fc, a2)
+				debug(a2, r2)
+				if r2.Status == "ok" && accept(r2) {
+					return finish(r2, a2)
+				}
+				if r2.Status != "ok" && r2.UnknownIdent != "" {
+					break // something else is missing too: fall through to the incremental search
+				}
+			}
+		}
+	}
+	// 2. incremental search, one unknown identifier at a time
 	var try func(alias map[string]string, missing string, depth int) *FuncResult
 	try = func(alias map[string]string, missing string, depth int) *FuncResult {
 		if !inLoops[missing] || depth > 3 {
@@ -131,21 +268,11 @@ func (e *Engine) rebind(fc *FuncContract, res *FuncResult, accept func(*FuncResu
 			}
 			a2[missing] = cand
 			r2 := e.verifyFuncAlias(fc, a2)
-			if os.Getenv("FVC_DEBUG_REBIND") != "" {
-				fmt.Fprintf(os.Stderr, "rebind %s: %v -> status=%s unknown=%q err=%s\n", fc.Key, a2, r2.Status, r2.UnknownIdent, truncate(r2.Error, 300))
-			}
+			debug(a2, r2)
 			switch {
 			case r2.Status == "ok":
 				if accept(r2) {
-					var ks []string
-					for k := range a2 {
-						ks = append(ks, k)
-					}
-					sort.Strings(ks)
-					for _, k := range ks {
-						r2.Notes = append(r2.Notes, fmt.Sprintf("%s: the loop invariants name a local `%s` that the function no longer has; they were re-bound to `%s` (proof hints only; requires/ensures are unaffected) and every obligation was discharged under that binding", fc.Key, k, a2[k]))
-					}
-					return r2
+					return finish(r2, a2)
 				}
 			case r2.UnknownIdent != "" && r2.UnknownIdent != missing:
 				if _, dup := a2[r2.UnknownIdent]; !dup {
